@@ -62,6 +62,45 @@ def twin(ctx, r, wd):
                  C.replay_of(r, len(r.steps) - 1), ident="continuation differs after a rejected call")
 
 
+def big_rejected(ctx, wd):
+    """a LARGE block (64 KiB ... 128 KiB and neighbours) is to be replaced by a block of exactly the same size whose LAST item
+    cannot be encoded (over-long / non-cp1252 label), through replace_block and through the setter: nothing of the new block
+    may reach the file - whatever way large or same-sized blocks take through the library"""
+    import absval as A
+    C.Clock.install()
+    rng = ctx.rng
+    runs = []
+    sizes = [65536, 65540, 70000, 131072] + ([65532, 98304, 262144, 300000] if ctx.thorough else [])
+    for size in sizes:
+        for kind in ("events", "data3d"):
+            if kind == "events":
+                n = (size - 8 - 2 * 264) // 4
+                old = dict(kind="events", v=[1, 0, [[[65], 1, [1065353216 + (i % 1000) for i in range(n)]], [[66], 0, []]]])
+                new = dict(kind="events", v=[1, 0, [[[67], 1, [1073741824 + (i % 999) for i in range(n)]], [[68], 0, []]]])
+            else:
+                nfr = max(2, (size - 80 - 2 * 272) // 24)
+                z3, z9 = [0, 0, 0], [0] * 9
+                old = dict(kind="data3d", v=[2, nfr, 100, 0, z3, z9, z3, 0, [], [[[65], [[1, 2, 3]] * nfr], [[66], [[4, 5, 6]] * nfr]]])
+                new = dict(kind="data3d", v=[2, nfr, 100, 0, z3, z9, z3, 0, [], [[[67], [[7, 8, 9]] * nfr], [[68], [[10, 11, 12]] * nfr]]])
+            blk = A.build(kind, A.norm(old["v"]))
+            payload = A.encode(blk)
+            start = C.mkfile(3, [dict(type=3, fmt=1, payload=bytes(range(100)), cdate=C.T0 - 9, mdate=C.T0 - 8, comment="first"),
+                                 dict(type=A.BLOCKTYPE[kind], fmt=A.fmt_of(kind, old["v"]), payload=payload, cdate=C.T0 - 7, mdate=C.T0 - 6, comment="big")])
+            for bad in ("label-long-last", "label-noncp"):
+                for how in ("replace", "set"):
+                    r = C.Run(start, wd)
+                    r.desc, r.style = f"big(N=3, {kind} of {len(payload)} bytes)", "big-rejected"
+                    op = ("replace", None, None) if how == "replace" else ("set", {"events": "events", "data3d": "data3D"}[kind])
+                    r.hist = [(op, dict(new, bad=bad)), (op, dict(new)), (("reopen",), None)]
+                    r.open()
+                    for o, sp in r.hist:
+                        r.step(o, sp)
+                    r.finish()
+                    runs.append(r)
+    C._finish_chunk(runs)
+    return runs
+
+
 def run(ctx):
     styles = ["fresh", "n1", "n2", "n3", "n5", "n14"]
     import itertools
@@ -71,6 +110,7 @@ def run(ctx):
                            C.explore_one_object(ctx, depth=5 if ctx.thorough else 4))
     wd = tempfile.mkdtemp(prefix="vtdf")
     try:
+        runs = itertools.chain(runs, big_rejected(ctx, wd))
         for r in runs:
             rejected = [s for s in r.steps if s["real"] != "ok"]
             first_ok = next((i for i, s in enumerate(r.steps) if s["real"] == "ok" and s["op"][0] not in C.IDLE), None)
